@@ -34,6 +34,9 @@ type AcmeData struct {
 // AcmeStorages ...
 type AcmeStorages struct {
 	items, itemsAdd, itemsDel map[string]*AcmeCerts
+	// cleared is true between Clear() and Commit(): a full sync enqueues
+	// every storage again, so shrink() must not drop unchanged additions
+	cleared bool
 }
 
 // AcmeCerts ...
